@@ -14,7 +14,11 @@ focus = ''
 if rnd:
     k = (ord(rnd[0]) - ord('a')) % len(mechs)
     m = mechs[k]
-    if rnd[0] >= 'g':
+    if rnd[0] >= 'h':
+        k = (ord(rnd[0]) - ord('a') + 5) % len(mechs)
+        m = mechs[k]
+        focus = '\n  Focus: put your change in or around this mechanism of the implementation: %s (%s). Prefer a fault that needs a LONG-LIVED session or REUSE to show: something that accumulates or drifts over many operations (a leak of a few bytes or of one table entry per call, a counter or cursor that creeps or wraps, a cache or list that keeps stale entries, rounding that compounds), or a resource that is handed out again after it was released (a file number, record buffer or lock reopened after CLOSE, string space reused after a garbage collection, an array or variable re-created after ERASE / CLEAR / NEW, a screen page or mode entered a second time, a program line re-entered after DELETE, a second RUN of the same program in the same session). A single use from a fresh session must behave exactly as before; only the repetition, the reuse or the sheer number of operations brings the fault out.' % (m.get('name'), m.get('where'))
+    elif rnd[0] >= 'g':
         k = (ord(rnd[0]) - ord('a') + 4) % len(mechs)
         m = mechs[k]
         focus = '\n  Focus: put your change in or around this mechanism of the implementation: %s (%s). Prefer a fault whose effect shows only AFTER something has gone wrong or been cut short - a statement that raised an error part-way, an operation refused for lack of memory or because of a disk / tape / device error, a Break / STOP / END in the middle of a loop, handler or file operation, a trapped error followed by RESUME - so that the state left behind (a flag not restored, a resource not released, a half-updated table, a counter advanced although the operation failed) makes LATER, perfectly ordinary operations misbehave; or a fault that shows only under a non-default Session option that the mechanism supports (another syntax / dialect such as pcjr or tandy, another video adapter or text width, the double-precision math option, soft linefeed, another codepage, a memory size limit). The fault should stay invisible as long as every operation succeeds under the default configuration.' % (m.get('name'), m.get('where'))
